@@ -443,12 +443,11 @@ Qed.
 
 (** on a one-hot grid the windows over the sequence and over the decoded act rows coincide *)
 Lemma onehot_window_args s q f fd w t :
-  onehot fb s q -> ff_window fd = Some w -> sustain_of fb f = 1 -> win_width w - 1 <= win_start w ->
+  onehot fb s q -> ff_window fd = Some w -> sustain_of fb f = 1 ->
   Forall (fun d => sact fb d = true) (win_deps w) -> t < T fb ->
-  applies (code_factor fb f fd) t = true ->
   window_args q (code_factor fb f fd) (dwin fd w) t = window_args (dec_act fb s) (code_factor fb f fd) (dwin fd w) t.
 Proof.
-  intros Ho Ew Hsu W3 Hd Ht Hap. apply (impl_window_ext fb HF1 HT q (dec_act fb s) f fd w t Hsu W3 Hap Ew).
+  intros Ho Ew Hsu Hd Ht. apply (window_ext_su1 fb HF1 HT q (dec_act fb s) f fd w t Hsu Ew).
   intros d t' Hin Ht'. pose proof (proj1 (Forall_forall _ _) Hd d Hin) as Hds. cbv beta in Hds.
   destruct (sact_lappl fb HF1 d t' Hds) as [Hda _].
   rewrite (dec_act_cell fb s t' d ltac:(lia) (f1_act_lt fb HF1 d Hda)).
@@ -640,19 +639,19 @@ Proof.
       pose proof (proj1 (pderiv_char s q f l0 (win_deps w) (lv_accepts lv) Ho Hs Hl1 Hlt He) H) as H'.
       rewrite accepts_level, Elv, <- (H' t Ht), El0. unfold is_level. cbn [cell_eqb]. apply Nat.eqb_refl.
     + (* an implied factor *)
-      destruct (implied_facts fb HF1 HT f Hf Hact) as (fd' & w & Efd' & Ew & Hdeps & W1 & W2 & W3 & Htot).
+      destruct (implied_facts fb HF1 HT f Hf Hact) as (fd' & w & Efd' & Ew & Hdeps & W1 & W2 & Htot).
       assert (fd' = fd) by congruence. subst fd'.
       pose proof (impl_sustain fb HF1 HT f Hf Hact) as Hsu.
       apply (factor_ok_impl q f fd w Efd Ew Hsu (Hr f Hf)). intros t Ht.
       rewrite (Himp t f Ht Hf Hact). unfold cell_impl, factor_at. rewrite Efd, Ew.
       destruct (applies (code_factor fb f fd) t) eqn:Hap; [|reflexivity].
-      rewrite <- (onehot_window_args s q f fd w t Ho Ew Hsu W3 Hdeps Ht Hap).
+      rewrite <- (onehot_window_args s q f fd w t Ho Ew Hsu Hdeps Ht).
       destruct (find (fun l => accepts (dwin fd w) l (window_args q (code_factor fb f fd) (dwin fd w) t)) (seq 0 (nlevels fb f)))
         as [l|] eqn:El.
       * destruct (find_in_range fb HF1 HT _ _ _ El) as [A B]. now split.
       * exfalso. pose proof (pcons_cell_impl fb HF1 HT s t f (onehot_pcons fb s q Ho) Ht Hf Hact) as P.
         unfold appl, cell_impl, factor_at in P. rewrite Efd, Ew, Hap in P.
-        rewrite <- (onehot_window_args s q f fd w t Ho Ew Hsu W3 Hdeps Ht Hap), El in P.
+        rewrite <- (onehot_window_args s q f fd w t Ho Ew Hsu Hdeps Ht), El in P.
         destruct P as (l & _ & Q). discriminate.
   - intros H d deps f Hin. unfold Pderiv_any. destruct (is_complex fb f) eqn:Hcf.
     + destruct (derivc_formulas_eq fb HF1 HT d deps f Hin Hcf) as (fd & w & l & lv & Efd & Ew & Elv & Hf & Hcx & Hl & _ & _ & Hent & _ & EF).
